@@ -17,17 +17,21 @@ def clear_of_border(n, it, o, row, margin=2):
 
 
 def farshift_cases(ctx, count):
-    """offsets of about half the grid with a narrow support placed so that the displaced
-    support is interior as well (boundary of the proof's stencil-in-table-range hypothesis)"""
+    """offsets of about half the grid with a narrow support placed so that the displaced support is interior as well
+    (boundary of the proof's stencil-in-table-range hypothesis).  Swept, not drawn: upwards the integer part of n/2+offset is
+    exactly size, size-1, size-2, size-3 (the guard's upper edge and the stencil leaving the table at the top), downwards
+    n/2+offset lies in (-1,0], (0,1], (1,2], (2,3] (guard's lower edge, stencil leaving at the bottom), each for it = 2, 3, 4"""
     rng = ctx.rng
     cases = []
     for i in range(count):
-        n = rng.choice(range(16, 34))
+        sgn = 1 if i % 2 == 0 else -1
+        r = (i // 2) % 4
+        it = 2 + (i // 8) % 3
+        n = rng.choice(range(20, 34))
         h = n // 2
-        it = rng.choice([2, 3, 4])
         d = rng.choice(["x", "y"])
-        sgn = rng.choice([-1, 1])
-        o = sgn * (h - rng.randint(0, 3) + rng.randint(0, 15) / 16.0)
+        f = rng.randint(1 if r == 0 else 0, 15) / 16.0
+        o = (n - r - h + f) if sgn > 0 else -(h - r + f)
         data = [0.0] * (n * n)
         if sgn > 0:
             a = n - 7
